@@ -37,6 +37,16 @@ NEAR = [
     ('upload', 'README', 'file'),
     ('upload', 'gopls-2024-01-01.v1.countx', 'file'),
 ]
+# non-empty directories whose names look like data files (os.Remove cannot remove them): they and their contents must stay, and the
+# data files that sort after them must still go.  By position among the data files of their directory: first, middle, last.
+def _blk(loc, name, child):
+    return [(loc, name, 'dir'), (loc + '/' + name, child, 'file')]
+
+
+BLOCK_FIRST = _blk('local', '2020-01-01.json', 'keep.json') + _blk('upload', '2020-01-01.json', 'keep.txt')
+BLOCK_MIDDLE = _blk('local', 'b.v1.count', 'inner.v1.count') + _blk('upload', '2023-12-31.json', '2023-12-31.json')
+BLOCK_LAST = _blk('local', 'zz.json', 'keep.txt') + _blk('upload', '2025-01-01.json', 'x.json')
+BLOCKS = BLOCK_FIRST + BLOCK_MIDDLE + BLOCK_LAST
 FOREIGN = [
     ('root', 'upload.token', 'file'),
     ('root', 'stray.json', 'file'),
@@ -85,8 +95,8 @@ def subsets(xs):
 def run(ctx):
     ctx.assumptions += [
         'a counter file is a regular file of local/ named *.v1.count, a report a regular file of local/ or upload/ named *.json '
-        '(what the uploader itself treats as data); names equal to the bare suffix, directories or symbolic links with data-file '
-        'names, and *.v1.count files inside upload/ are not generated (the property is silent on them)',
+        '(what the uploader itself treats as data); a non-empty directory with a data-file name is not data and stays with its contents; names equal to the bare suffix, EMPTY '
+        'directories or symbolic links with data-file names, and *.v1.count files inside upload/ are not generated (the property is silent on them)',
         '`gotelemetry local` on a mode file whose word is not a mode (it already behaves as local) and mode commands on a mode file '
         'that is a directory are not generated',
         'the current date is the real UTC date read just before and after each command (either is accepted if midnight passes)',
@@ -97,26 +107,34 @@ def run(ctx):
     rng = random.Random(ctx.seed * 7907 + 3)
 
     # ---- the family of initial directories ------------------------------------------
-    pool = DATA + NEAR + FOREIGN
+    pool = DATA + NEAR + FOREIGN + BLOCKS
     cid = {e: i + 1 for i, e in enumerate(pool)}
-    near_halves = [[], NEAR, NEAR[0::2], NEAR[1::2]]
-    foreign_opts = [[], FOREIGN]
+    near_halves = [[], NEAR, NEAR[0::2], NEAR[1::2]] if th else [NEAR[ctx.seed % 2::2], NEAR]
+    # foreign entries x blocking directories
+    rest_opts = [[], FOREIGN, BLOCK_FIRST, FOREIGN + BLOCK_MIDDLE, BLOCK_LAST, FOREIGN + BLOCKS]
+    if not th:
+        rest_opts = [[], FOREIGN + BLOCK_MIDDLE, BLOCK_FIRST, BLOCK_LAST, FOREIGN + BLOCKS]
     if th:
-        data_opts = subsets(DATA)
+        data_opts = [s for s in subsets(DATA) if len(s) in (0, 1, 2, len(DATA) - 1, len(DATA))] + [[e for e in DATA if rng.random() < 0.5] for _ in range(12)]
     else:
-        data_opts = [s for s in subsets(DATA) if len(s) in (0, 1, len(DATA))] + [[e for e in DATA if rng.random() < 0.5] for _ in range(6)]
+        data_opts = [s for s in subsets(DATA) if len(s) in (0, 1, len(DATA))] + [[e for e in DATA if rng.random() < 0.5] for _ in range(3)]
     trees = []
     for d in data_opts:
         for n in near_halves:
-            for f in foreign_opts:
+            for f in rest_opts:
                 trees.append(d + n + f)
     # a few seed-dependent mixed directories
     for _ in range(ctx.pick(12, 60)):
-        trees.append([e for e in pool if rng.random() < 0.5 and not (e[0] in ('debug', 'local/sub', 'upload/old'))]
-                     + [e for e in FOREIGN if e[2] == 'dir'])
+        t = [e for e in DATA + NEAR + FOREIGN if rng.random() < 0.5 and not (e[0] in ('debug', 'local/sub', 'upload/old'))] + [e for e in FOREIGN if e[2] == 'dir']
+        for blk in (BLOCK_FIRST, BLOCK_MIDDLE, BLOCK_LAST):
+            for i in (0, 2):
+                if rng.random() < 0.3:
+                    t += blk[i:i + 2]
+        trees.append(t)
     tree_tla = ['{' + ', '.join(ent_tla(e, cid[e]) for e in t) + '}' for t in trees]
     modes = ['Absent', 'Unreadable']
-    modes += [mf_tla('text', w, d) for w in ('on', 'off', 'local') for d in (NODATE, BADDATE, TODAY, TODAY - 1, TODAY - 400)]
+    mode_dates = (NODATE, BADDATE, TODAY, TODAY - 1, TODAY - 400) if th else (NODATE, TODAY - 1, (BADDATE, TODAY, TODAY - 400)[ctx.seed % 3])
+    modes += [mf_tla('text', w, d) for w in ('on', 'off', 'local') for d in mode_dates]
     modes += [mf_tla('text', 'ON'), mf_tla('text', ''), mf_tla('text', 'lokal', TODAY - 3), mf_tla('text', 'on', TODAY - 1, True), mf_tla('text', 'off', NODATE, True),
               mf_tla('text', 'local', TODAY - 30, True)]
     def mcmod(tt):
@@ -135,7 +153,7 @@ MCModeFiles == {%s}
     def cfg(maxcmds, props=True):
         t = 'SPECIFICATION Spec\nCHECK_DEADLOCK FALSE\n'
         if props:
-            t += ('INVARIANTS TypeOK CleanedStaysClean\nPROPERTIES CleanRemovesData CleanNothingElse ModeOnlyMode NoOpWhenSame Records '
+            t += ('INVARIANTS TypeOK CleanedStaysClean\nPROPERTIES CleanRemovesData CleanNothingElse CleanKeepsNonEmptyDirs ModeOnlyMode NoOpWhenSame Records '
                   'NoCommandCreatesData AfterModeCmdItReads CleanIdempotent EnvShowsTheFile\n')
         t += 'CONSTANTS\n Trees <- MCTrees\n ModeFiles <- MCModeFiles\n Today = %d\n MaxCmds = %d\n' % (TODAY, maxcmds)
         return t
